@@ -179,3 +179,28 @@ def h_drop_leading_zeros(a: str, b: str):
     for src, got in ((a, parts[0]), (b, parts[1])):
         assert int(got) == int(src)                       # same number
         assert got == '0' or not got.startswith('0')      # no superfluous zero
+
+
+POS = sl('pos', 3)
+GLEN = sl('glen', 4)
+SEP = sl('sep', '.')
+
+
+def h_drop_zeros_group(g: str):
+    """one symbolic group at position POS (first / inner / last) of a 4-group address with separator SEP: only that group
+    changes, to the same number without superfluous zeros ("0" for an all-zero group); the separators stay"""
+    assert 1 <= len(g) <= GLEN and all(c in '0123456789abcdef' for c in g)
+    assert SEP == ':' or (len(g) <= 3 and all(c in '0123456789' for c in g))
+    groups = ['10', '007', 'a1' if SEP == ':' else '21', '0']
+    groups[POS] = g
+    out = BaseIpParser.drop_leading_zeros(SEP.join(groups))
+    parts = out.split(SEP)
+    assert len(parts) == 4
+    want = ['10', '7', 'a1' if SEP == ':' else '21', '0']
+    for i in range(4):
+        if i != POS:
+            assert parts[i] == want[i]
+    got = parts[POS]
+    # same number, canonical: got is g without a prefix of zeros; no zero is left in front unless the group is zero
+    assert got != '' and (got == '0' or got[0] != '0')
+    assert g.endswith(got) and all(c == '0' for c in g[:len(g) - len(got)])
